@@ -268,6 +268,12 @@ else:
 def _histogramdd(
     sample, *, bins=10, range=None, density=None, weights=None, normed=None
 ):
+    if isinstance(sample, np.ndarray):
+        # one (N, D) array of N points: NumPy reads a list as one array per
+        # dimension, so hand it the D columns
+        if sample.ndim == 1:
+            sample = sample[:, np.newaxis]
+        sample = [sample[:, i] for i in np.arange(sample.shape[1])]
     range = _sanitize_range(range, units=[getattr(_, "units", None) for _ in sample])
     if NUMPY_VERSION >= Version("1.24"):
         counts, bins = np.histogramdd._implementation(
